@@ -416,6 +416,11 @@ def build_model(rnd, kind=None):
     kind = kind or rnd.choice(kinds)
     pep = PEP(); info = dict(kind=kind)
     mu, L = rnd.choice([0.1, 0.25, 0.5]), rnd.choice([1.0, 2.0]); gamma = rnd.choice([0.5, 1.0, 1.5]) / L; n = rnd.randint(1, 2)
+    # one model in six is LONG (5 to 9 iterations: Gram matrices of 8 to 22 rows, multipliers and residual eigenvalues spread over
+    # several orders of magnitude), one in eight has a large curvature constant (L = 40 or 100, gradients of order L)
+    if rnd.random() < 1 / 6 and kind != "composite": n = rnd.randint(5, 9)      # (a composite F = f1 + c f2 is (1 + c) L-smooth: gamma = 1.5 / L diverges on it, 9 steps reach 1e5)
+    if rnd.random() < 1 / 8:
+        L = rnd.choice([40.0, 100.0]); gamma = rnd.choice([0.5, 1.0, 1.5]) / L
     info.update(mu=mu, L=L, gamma=gamma, n=n)
     if kind == "tiny_multiplier":
         # a flat function on a large ball: the active initial condition carries the whole constant of the proof with a
